@@ -36,7 +36,10 @@ ASSUMPTIONS = [
     'padding bytes/bits, bits of a union outside its initialised member, bytes 10..15 of a long double are not compared with gcc (latitude); '
     'the model is compared with chibicc on ALL bytes',
     'excluded (not generated or counted): everything gcc rejects; GNU extensions chibicc rejects (empty braces for unions/scalars ...); range '
-    'designators over aggregate elements (elided braces would be re-parsed per element); non-constant or side-effecting initializers; strings '
+    'designators over aggregate elements whose initializer is NOT brace-enclosed/a string AND is followed by a positional initializer (chibicc '
+    're-parses the initializer once per element of the range, so the continuation lands in every element; gcc continues after the last one - '
+    'GNU extension, no C11 semantics; ranges over aggregate elements with braces, strings, or a designator next ARE generated, together with an '
+    'earlier/later designator into one element of the range); non-constant or side-effecting initializers; strings '
     'longer than their array; signed out-of-range conversions; a second initializer for a flexible array member (gcc fixes its size at the '
     'first); a positional string literal after a designator in the same list (gcc puts it into the designated row: '
     '`char b[3][2] = {[0][1] = 2, "b"}` gives b[0] = "b" - an oracle quirk, chibicc follows the standard); address constants in _Bool/float/bit-field leaves',
@@ -683,7 +686,100 @@ class Gen:
             return 0
         return sum(self.count_leaves(m.ty) for m in t.members if not is_unnamed_bf(m))
 
+    # ------------------------------------------------------------------ range designators over aggregate elements
+    def range_case(self):
+        """`[a ... b]` over struct / array / character-array elements, combined with an earlier and/or a later designator
+        into ONE element of the range (the elements of a range are separate objects: 6.7.9p19 applies to each on its own).
+        chibicc parses the initializer of a range once per element; gcc (the judge for this GNU extension) stores one
+        initializer in every element and continues after the last.  The two agree when the initializer is brace-enclosed or a
+        string literal, or when the next initializer of the list starts with a designator (or the list ends); only those
+        spellings are generated."""
+        rng = self.rng
+        self.features = set(['range-designator', 'range-over-aggregate', 'designator'])
+        notes = set()
+        n = rng.choice([3, 4, 4, 5])
+        kind = rng.choice(['struct', 'struct', 'array', 'string', 'nested'])
+        if kind == 'struct':
+            ms = [Mem(nm, rng.choice([BYNAME['int'], BYNAME['char'], BYNAME['long'], BYNAME['short'], BYNAME['unsigned char']]))
+                  for nm in 'abc'[:rng.choice([2, 3])]]
+            elem = Agg(False, ms)
+        elif kind == 'array':
+            elem = Arr(rng.choice([BYNAME['int'], BYNAME['short'], BYNAME['long']]), rng.choice([2, 3]))
+        elif kind == 'string':
+            elem = Arr(BYNAME['char'], rng.choice([3, 4]))
+        else:
+            inner = Agg(False, [Mem('a', BYNAME['int']), Mem('b', BYNAME['char'])])
+            elem = Agg(False, [Mem('t', BYNAME['char']), Mem('p', Arr(inner, 2)), Mem('s', BYNAME['short'])])
+        arr = Arr(elem, n)
+        wrap = rng.random() < 0.3
+        if wrap:
+            root = Agg(False, [Mem('k', BYNAME['int']), Mem('v', arr), Mem('z', BYNAME['char'])])
+            pre_t, pre_p = [('.', 'v')], [1]
+        else:
+            root, pre_t, pre_p = arr, [], []
+        a = rng.randint(0, n - 2)
+        b = rng.randint(a + 1, n - 1)
+        def leaf_desg(j):
+            """designator list + value for one scalar leaf inside element j"""
+            toks, path, t = list(pre_t) + [('[', j)], list(pre_p) + [j], elem
+            while not isinstance(t, Sc):
+                if isinstance(t, Arr):
+                    k = rng.randint(0, t.n - 1)
+                    toks.append(('[', k)); path.append(k); t = t.elem
+                else:
+                    k = rng.randint(0, len(t.members) - 1)
+                    toks.append(('.', t.members[k].name)); path.append(k); t = t.members[k].ty
+            return toks + ['=', self.value_for(t, None, False)], path
+        items = []
+        before = rng.random() < 0.55
+        after = rng.random() < 0.75 or not before
+        touched = []
+        if before:
+            it, pth = leaf_desg(rng.randint(a, b))
+            items.append(it); touched.append(pth)
+            self.features.add('range-after-element-designator')
+        rt = list(pre_t) + [('[..', a, b)]
+        r = rng.random()
+        must_desg_next = False
+        if kind == 'string' and r < 0.5:
+            items.append(rt + ['='] + [self.string_for(elem.elem, elem.n)])
+            self.features.add('range-string')
+            if touched: notes.add('maybe-override')
+        elif r < 0.7:
+            items.append(rt + ['='] + self.braced(elem, False, 2, notes))
+            self.features.add('range-braced')
+            if touched: notes.add('maybe-override')
+        else:
+            # a further designator into every element of the range, then one scalar; the next initializer must start with a designator
+            toks, t = list(rt), elem
+            while not isinstance(t, Sc):
+                if isinstance(t, Arr):
+                    k = rng.randint(0, t.n - 1)
+                    toks.append(('[', k)); t = t.elem
+                else:
+                    k = rng.randint(0, len(t.members) - 1)
+                    toks.append(('.', t.members[k].name)); t = t.members[k].ty
+            items.append(toks + ['=', self.value_for(t, None, False)])
+            self.features.add('range-with-suffix')
+            must_desg_next = True
+        if after:
+            it, pth = leaf_desg(rng.randint(a, b))
+            items.append(it)
+            self.features.add('element-designator-after-range')
+        elif not must_desg_next and rng.random() < 0.4 and b + 1 < n:
+            ex, _ = self.plain(root, True, pre_p + [b + 1], notes, allow_string=False)
+            if ex is not None:
+                items.append([ex]); self.features.add('brace-elision')
+        toks = ['{']
+        for i, it in enumerate(items):
+            if i: toks.append(',')
+            toks += it
+        toks.append('}')
+        return {'ty': root, 'toks': toks, 'features': sorted(self.features), 'notes': sorted(notes)}
+
     def case(self):
+        if self.rng.random() < 0.07:
+            return self.range_case()
         self.features = set()
         notes = set()
         t = self.top_type()
@@ -991,8 +1087,13 @@ class Runner:
         spec_txt = m.get('spec', '')
         spec_ok = bool(spec_txt) and not spec_txt.startswith('fail')
         over = ' over=1' in spec_txt
+        xover = ' xover=1' in spec_txt      # region AggExprOverride (not generated: expressions of struct/union type)
         if over:
             corr.count('region:brace-override')
+        if xover:
+            corr.count('region:agg-expr-override')
+        if ' wide=1' in spec_txt:
+            corr.count('wide-range-designator')
         # ---- rejected by a compiler
         if k in grej:
             corr.count('gcc_rejects')
@@ -1108,8 +1209,9 @@ class Runner:
             if d2 is not None:
                 corr.disagreements.append({'kind': 'spec-vs-gcc', 'input': inp, 'spec': show_cells(sc), 'gcc': show_cells(gs), 'at': d2})
             same = m.get('spec', '').endswith('same=1')
-            if not same and not over:
-                # outside the known region the parser model must produce the tree of the specification
+            if not same and not over and not xover:
+                # outside the known regions the parser model must produce the tree of the specification (this includes every
+                # generated range designator: braces, strings, or a designator next)
                 corr.disagreements.append({'kind': 'model-vs-spec', 'input': inp, 'model': m.get('static'), 'spec': spec_txt})
         else:
             corr.disagreements.append({'kind': 'spec-vs-gcc', 'input': inp, 'spec': spec_txt, 'gcc': 'accepted: ' + show_cells(gs)})
